@@ -955,6 +955,7 @@ ecdsa_pub_key_import_be(ec_curve_p curve,
 		point->infinity = 1;
 		return (0);
 	}
+	point->infinity = 0; /* Every other form is a finite point. */
 	/* Uncompressed, (x, y) specified. */
 	if (bytes == pub_key_size) {
 		if (NULL == pub_key_y)
@@ -1021,6 +1022,7 @@ ecdsa_pub_key_import_le(ec_curve_p curve,
 		point->infinity = 1;
 		return (0);
 	}
+	point->infinity = 0; /* Every other form is a finite point. */
 	/* Uncompressed, (x, y) specified. */
 	if (bytes == pub_key_size) {
 		if (NULL == pub_key_y)
